@@ -23,10 +23,18 @@ ASSUMPTIONS = ['single-contig kernels get_pileup / get_boolean_mask / merge_inte
                'intervals with start > stop are not generated; zero-length intervals are not used for array/sequence '
                'extraction (npstructures np.where fails on them irrespective of chromosomes)',
                'merged() is exercised on input sorted by (chromosome, start) as merge_intervals requires']
-PARTIAL = ['C10_merged_pinned_refuted / C10_geo_merge_pinned_refuted: the pinned merged()/Geometry.merge_intervals do not '
-           'satisfy the per-chromosome statement; the positive theorem C10_merged_local is about the repaired algorithm '
-           '(model_merged_fixed, notes/C10.fix-1.diff)',
-           'C10_pileup_negative_start_refuted: without fix-2 a negative start is accepted and counted on the previous chromosome']
+PARTIAL = ['C10_merged_pinned_partial: the pinned GenomicIntervalsFull.merged(distance>0) equals the per-chromosome merge only when '
+           'no chromosome name contains "_" and every chromosome carries at least one interval; merged() with distance 0 '
+           'always raises (C10_merged_pinned_refuted, C10_merged_pinned_distance_refuted); the unrestricted positive theorem '
+           'C10_merged_local is about the repaired algorithm model_merged_fixed (notes/C10.fix-1.diff)',
+           'C10_geo_merge_pinned_refuted / _silent_refuted: Geometry.merge_intervals fuses across a chromosome boundary; no '
+           'positive theorem for the pinned Geometry.merge_intervals and Geometry.sort (to_local_interval route) — correspondence only',
+           'C10_pileup_negative_start_refuted: C10_pileup_local / C10_mask_local / C10_extract_local need 0 <= start, which the '
+           'pinned bounds checks do not enforce (notes/C10.fix-2.diff adds the check)',
+           'C10_location_pinned_partial: get_location is right except for (unstranded, "stop") (C10_location_pinned_refuted)',
+           'C10_seq_partial: stranded sequence extraction is right unless every interval has length 1 (C10_seq_refuted)',
+           'ignored-chromosome filtering (mask_data), Geometry.sort and the coordinate lists of OCoords have no theorem of their '
+           'own: they are covered by the correspondence and, for the coordinates, pointwise by C10_offset_bijection']
 PER_FILE = 40
 
 ERR = {'AssertionError': 1, 'AttributeError': 2, 'IndexError': 3, 'GenomeError': 4, 'Exception': 5,
@@ -174,7 +182,7 @@ def _exhaustive_small(tier):
     {0,1,size-1,size}: pileup, mask and merged — the operations that work in one concatenated coordinate space"""
     cases = []
     per = 1 if tier == 'quick' else 2
-    for s1, s2 in ([(2, 2), (3, 1)] if tier == 'quick' else [(1, 1), (2, 2), (3, 2), (2, 3)]):
+    for s1, s2 in ([(2, 2), (3, 1)] if tier == 'quick' else [(1, 1), (2, 2), (3, 2)]):
         genome = [['chr1', s1], ['chr11', s2]]
 
         def ivs(size):
@@ -196,7 +204,7 @@ def generate(tier, seed):
     rng = random.Random(seed * 10007 + 10)
     S = 5 if tier == 'quick' else 7
     cases = []
-    n_base = 70 if tier == 'quick' else 500
+    n_base = 70 if tier == 'quick' else 330
     for k in range(n_base):
         cases += _scenario(rng, S, tier)
     for k in range(n_base // 4):
@@ -248,7 +256,12 @@ def observe(case):
         d = ga.to_dict()
         if list(d.keys()) != [names[i] for i in inc]:
             return dict(t='err', code=90, exc='keys', msg=str(list(d.keys())))
-        return dict(t='arrays', a=[[int(x) for x in np.asarray(v).tolist()] for v in d.values()])
+        a = [[int(x) for x in np.asarray(v).tolist()] for v in d.values()]
+        # GenomicArray['chrN'] (extract_chromsome) must be the same per-chromosome cut
+        b = [[int(x) for x in np.asarray(ga[names[i]].to_array()).tolist()] for i in inc]
+        if a != b:
+            return dict(t='err', code=91, exc='extract_chromsome', msg=str(b)[:100])
+        return dict(t='arrays', a=a)
 
     def rows_res(r, conv):
         out = []
